@@ -58,6 +58,14 @@ func isRequest(k string) bool {
 }
 
 func monitor(prop string, h *History, res *common.Result) {
+	switch prop {
+	case "C04":
+		leaseMonitor(prop, h, res)
+	case "C03":
+		waitMonitor(prop, h, res)
+	case "C10":
+		restartMonitor(prop, h, res)
+	}
 	noclearDisc := false
 	for i := range h.Steps {
 		s := &h.Steps[i]
@@ -100,6 +108,28 @@ func monitor(prop string, h *History, res *common.Result) {
 					}
 				}
 			}
+			// a successful Unlock / Renew / admin unlock leaves every OTHER hold's bookkeeping entry alone
+			if (s.Op.Kind == "unlock" || s.Op.Kind == "renew" || s.Op.Kind == "ipcunlock") && s.Resp.Ok && s.Before != nil {
+				k := s.Op.Key
+				if k == "" {
+					k = s.Op.Chosen
+				}
+				self := fmt.Sprintf("%s/%s/", impl.Tok(s.Op.Name), impl.Tok(k))
+				after := map[string]bool{}
+				for _, e := range holdsOfListing(v) {
+					after[e] = true
+				}
+				for _, e := range holdsOfListing(s.Before) {
+					if !after[e] && !strings.HasPrefix(e, self) {
+						viol(res, prop, "seq:crosstalk:"+s.Op.Kind+"-removed-other-hold", fmt.Sprintf("%q removed the bookkeeping entry %s of a different hold", s.Op.Line(), e), h, i, nil)
+						return
+					}
+				}
+				if s.Op.Kind == "renew" && (s.Before.L != v.L || stripLa(s.Before.T) != stripLa(v.T)) {
+					viol(res, prop, "seq:crosstalk:renew-changed-state", fmt.Sprintf("%q changed the listing or the lock table", s.Op.Line()), h, i, nil)
+					return
+				}
+			}
 			// a successful Renew / Unlock must address a hold that exists under exactly that (name, key)
 			if (s.Op.Kind == "renew" || s.Op.Kind == "unlock") && s.Resp.Ok && s.Before != nil {
 				l, ok := s.Before.Table[s.Op.Name]
@@ -133,3 +163,277 @@ func monitor(prop string, h *History, res *common.Result) {
 }
 
 func stripLa(t string) string { return channels("r | T=" + t)["T"] }
+
+
+// ---------------------------------------------------------------- C04: leases, by plain arithmetic
+
+type leaseRec struct {
+	name     string
+	sid      string
+	deadline int64 // latest possible deadline; -1 = no lease
+	dmin     int64 // earliest possible deadline (a grant inside an advance happened somewhere in that interval)
+	ended    bool
+}
+
+func keyTokOfReq(req int) string { return impl.Tok(fmt.Sprintf("K%d", req)) }
+
+func leaseMonitor(prop string, h *History, res *common.Result) {
+	const sec = int64(1000000000)
+	holds := map[string]*leaseRec{} // key token → record
+	type reqInfo struct {
+		name, sid string
+		lt        *int32
+	}
+	reqs := map[int]reqInfo{}
+	nreq := 0
+	grant := func(req int, name, sid string, lt *int32, from, now int64) {
+		d, dm := int64(-1), int64(-1)
+		if lt != nil && *lt > 0 {
+			d, dm = now+int64(*lt)*sec, from+int64(*lt)*sec
+		}
+		holds[keyTokOfReq(req)] = &leaseRec{name: name, sid: sid, deadline: d, dmin: dm}
+	}
+	prev := int64(0)
+	for i := range h.Steps {
+		s := &h.Steps[i]
+		if h.TieAt >= 0 && i >= h.TieAt || strings.HasPrefix(s.Impl, "panic ") || strings.HasPrefix(s.Impl, "start-failed ") {
+			return
+		}
+		now := s.Now
+		switch s.Op.Kind {
+		case "trylock", "lock":
+			req := nreq
+			nreq++
+			reqs[req] = reqInfo{s.Op.Name, s.Op.Sid, s.Op.Lt}
+			if s.Resp.Ok {
+				grant(req, s.Op.Name, s.Op.Sid, s.Op.Lt, now, now)
+			}
+		case "unlock", "ipcunlock":
+			k := s.Op.Key
+			if k == "" {
+				k = s.Op.Chosen
+			}
+			if r, ok := holds[impl.Tok(k)]; ok && s.Resp.Ok && r.name == s.Op.Name {
+				if !r.ended && r.deadline >= 0 && now >= r.deadline {
+					viol(res, prop, "seq:lease:dead-key-accepted", fmt.Sprintf("%q succeeded at %d although the lease of that hold ran out at %d", s.Op.Line(), now, r.deadline), h, i, nil)
+					return
+				}
+				r.ended = true
+			}
+		case "renew":
+			if r, ok := holds[impl.Tok(s.Op.Key)]; ok && s.Resp.Ok && r.name == s.Op.Name {
+				if r.ended || r.deadline < 0 || now >= r.deadline {
+					viol(res, prop, "seq:lease:dead-key-accepted", fmt.Sprintf("%q answered locked=true at %d for a hold that is ended=%v / lease deadline %d", s.Op.Line(), now, r.ended, r.deadline), h, i, nil)
+					return
+				}
+				r.deadline = now + int64(s.Op.T)*sec
+				r.dmin = r.deadline
+			}
+		case "disconnect":
+			if !h.Cfg.NoClear {
+				for _, r := range holds {
+					if r.sid == s.Op.Sid {
+						r.ended = true
+					}
+				}
+			}
+		case "restart":
+			// what the new process restored is what its listing shows; all with the default lease
+			for _, r := range holds {
+				r.ended = true
+			}
+			for sid, hs := range s.View.Listing {
+				for _, hd := range hs {
+					f := strings.Split(hd, "/")
+					holds[f[1]] = &leaseRec{name: impl.UnTok(f[0]), sid: sid, deadline: now + int64(h.Cfg.Dlt), dmin: now + int64(h.Cfg.Dlt)}
+				}
+			}
+		}
+		for _, e := range s.Resp.Events {
+			f := strings.SplitN(e, ":", 4)
+			if f[1] == "1" {
+				var req int
+				fmt.Sscanf(f[0], "%d", &req)
+				ri := reqs[req]
+				grant(req, ri.name, ri.sid, ri.lt, prev, now)
+			}
+		}
+		prev = now
+		for k, r := range holds {
+			if r.ended {
+				continue
+			}
+			l, ok := s.View.Table[r.name]
+			in := ok && contains(l.Keys, k)
+			switch {
+			case r.deadline < 0 && !in:
+				viol(res, prop, "seq:lease:unleased-hold-gone", fmt.Sprintf("hold %s of %q was taken without a lock timeout and nobody released it, yet it is gone at %d", k, r.name, now), h, i, nil)
+				return
+			case r.deadline >= 0 && now < r.dmin && !in:
+				viol(res, prop, "seq:lease:early-release", fmt.Sprintf("hold %s of %q is gone at %d, before its lease deadline %d", k, r.name, now, r.deadline), h, i, nil)
+				return
+			case r.deadline >= 0 && now >= r.deadline && in:
+				viol(res, prop, "seq:lease:late-release", fmt.Sprintf("hold %s of %q is still held at %d although its lease ran out at %d", k, r.name, now, r.deadline), h, i, nil)
+				return
+			case r.deadline >= 0 && now >= r.deadline:
+				r.ended = true
+			}
+		}
+	}
+}
+
+// ---------------------------------------------------------------- C03: blocked calls
+
+func waitMonitor(prop string, h *History, res *common.Result) {
+	const sec = int64(1000000000)
+	type pend struct {
+		name  string
+		start int64
+		wt    *int32
+		order int
+	}
+	pending := map[int]*pend{}
+	nreq := 0
+	for i := range h.Steps {
+		s := &h.Steps[i]
+		if h.TieAt >= 0 && i >= h.TieAt || strings.HasPrefix(s.Impl, "panic ") || strings.HasPrefix(s.Impl, "start-failed ") {
+			return
+		}
+		if s.Op.Kind == "trylock" || s.Op.Kind == "lock" {
+			req := nreq
+			nreq++
+			if s.Resp.Pending {
+				pending[req] = &pend{name: s.Op.Name, start: s.Now, wt: s.Op.Wt, order: req}
+			}
+		}
+		granted := []int{}
+		for _, e := range s.Resp.Events {
+			f := strings.Split(e, ":")
+			var req int
+			fmt.Sscanf(f[0], "%d", &req)
+			p := pending[req]
+			if p == nil {
+				continue
+			}
+			errName := f[len(f)-1]
+			if errName == "LockWaitTimeout" {
+				if p.wt == nil || *p.wt <= 0 {
+					viol(res, prop, "seq:wait:timeout-without-timeout", fmt.Sprintf("blocked request %d had no wait timeout but returned LockWaitTimeout", req), h, i, nil)
+					return
+				}
+				if want := p.start + int64(*p.wt)*sec; s.Now != want && s.Op.Kind == "adv" && s.Now-s.Op.D < want {
+					// the advance that completed it must have crossed exactly start+wt; it may overshoot, never undershoot
+					if s.Now < want {
+						viol(res, prop, "seq:wait:early-timeout", fmt.Sprintf("blocked request %d timed out at %d, before start+wait = %d", req, s.Now, want), h, i, nil)
+						return
+					}
+				}
+				if s.Now < p.start+int64(*p.wt)*sec {
+					viol(res, prop, "seq:wait:early-timeout", fmt.Sprintf("blocked request %d timed out at %d, before start+wait = %d", req, s.Now, p.start+int64(*p.wt)*sec), h, i, nil)
+					return
+				}
+			}
+			if f[1] == "1" {
+				granted = append(granted, req)
+			}
+			delete(pending, req)
+		}
+		// FIFO: a granted waiter must be older than every waiter of the same lock still blocked
+		for _, g := range granted {
+			_ = g
+		}
+		for _, e := range s.Resp.Events {
+			f := strings.Split(e, ":")
+			if f[1] != "1" {
+				continue
+			}
+			var req int
+			fmt.Sscanf(f[0], "%d", &req)
+			for r2, p2 := range pending {
+				if r2 < req && nameOfReq(h, req) == p2.name {
+					viol(res, prop, "seq:wait:fifo", fmt.Sprintf("blocked request %d was granted %q while the older request %d is still waiting for it", req, p2.name, r2), h, i, nil)
+					return
+				}
+			}
+		}
+		// promptness: a waiter with a deadline that has passed must have returned; a lock with free units has no waiter
+		for req, p := range pending {
+			if p.wt != nil && *p.wt > 0 && s.Now >= p.start+int64(*p.wt)*sec {
+				viol(res, prop, "seq:wait:late-timeout", fmt.Sprintf("blocked request %d is still waiting at %d although start+wait = %d has passed", req, s.Now, p.start+int64(*p.wt)*sec), h, i, nil)
+				return
+			}
+			if l, ok := s.View.Table[p.name]; ok && int64(len(l.Keys)) < int64(l.Size) {
+				viol(res, prop, "seq:wait:lost-wakeup", fmt.Sprintf("blocked request %d waits for %q although only %d of %d units are taken", req, p.name, len(l.Keys), l.Size), h, i, nil)
+				return
+			}
+		}
+		if s.Op.Kind == "restart" {
+			pending = map[int]*pend{}
+		}
+	}
+}
+
+func nameOfReq(h *History, req int) string {
+	n := 0
+	for _, s := range h.Steps {
+		if s.Op.Kind == "trylock" || s.Op.Kind == "lock" {
+			if n == req {
+				return s.Op.Name
+			}
+			n++
+		}
+	}
+	return ""
+}
+
+// ---------------------------------------------------------------- C10: restart
+
+func restartMonitor(prop string, h *History, res *common.Result) {
+	ended := map[string]bool{} // "name/key" that ended at some point (never to come back)
+	for i := range h.Steps {
+		s := &h.Steps[i]
+		if h.TieAt >= 0 && i >= h.TieAt || strings.HasPrefix(s.Impl, "panic ") || strings.HasPrefix(s.Impl, "start-failed ") {
+			return
+		}
+		if s.Before != nil {
+			// anything held before this step and not held after it has ended
+			after := map[string]bool{}
+			for n, l := range s.View.Table {
+				for _, k := range l.Keys {
+					after[impl.Tok(n)+"/"+k] = true
+				}
+			}
+			if s.Op.Kind != "restart" {
+				for n, l := range s.Before.Table {
+					for _, k := range l.Keys {
+						if !after[impl.Tok(n)+"/"+k] {
+							ended[impl.Tok(n)+"/"+k] = true
+						}
+					}
+				}
+			}
+			for nk := range after {
+				if ended[nk] {
+					viol(res, prop, "seq:restart:ended-hold-returned", fmt.Sprintf("hold %s had ended, but after %q it occupies capacity again", nk, s.Op.Line()), h, i, nil)
+					return
+				}
+			}
+			if s.Op.Kind == "restart" && h.Cfg.File {
+				// every hold recorded in the file before the restart occupies capacity afterwards (sequential: no conflicts)
+				for _, hs := range s.Before.File {
+					for _, hd := range hs {
+						f := strings.Split(hd, "/")
+						if !after[f[0]+"/"+f[1]] {
+							viol(res, prop, "seq:restart:hold-not-restored", fmt.Sprintf("hold %s was in the state file but does not occupy capacity after the restart", hd), h, i, nil)
+							return
+						}
+					}
+				}
+				if len(s.View.TM) == 0 && len(after) > 0 {
+					viol(res, prop, "seq:restart:no-default-lease", "restored holds have no lease timer", h, i, nil)
+					return
+				}
+			}
+		}
+	}
+}
